@@ -269,6 +269,37 @@ def run(ctx):
                  "past sqlparser's recursion limit, into a left-deep tree whose recursive traversal and drop overflow the worker stack - one 60 kB (debug) / 200 kB (release) Query aborts the pooler",
                  ps[0].where() if ps else "", w and qp.describe_path(w))
 
+    # ---------------- R7 what pgcat builds for a server is well framed
+    r7 = ctx.rule("C11-R7", "a message that pgcat re-encodes for a server announces the length it has: the length field written by an encoder reachable from the client path is computed from the lengths of what is written, "
+                  "not from a count field supplied by the client (a mis-framed message makes the server close the connection, which pgcat answers by banning the replica)", floor=3)
+    reach_client = F.reachable_fns(["pgcat::client::client_entrypoint"])
+    n_enc = 0
+    for n_, b_ in F.bodies.items():
+        m_ = re.match(r"^pgcat::messages::<impl core::convert::TryFrom<(&?)pgcat::messages::(\w+)> for bytes::bytes_mut::BytesMut>::try_from$", n_)
+        if not m_ or m_.group(1) == "&":
+            continue
+        msgn = m_.group(2)
+        # conversions go through core's blanket TryInto, which the call graph does not see into: look for the conversion calls by their type arguments
+        conv = [c for c in F.all_calls("re:TryInto<.*>::try_into$|TryFrom<.*>::try_from$") if c.body.name in reach_client and any(("pgcat::messages::" + msgn) in t for t in c.targs) and any("BytesMut" in t for t in c.targs)]
+        if not conv:
+            r7.note("encoder of %s is not reachable from client_entrypoint (not examined)" % msgn)
+            continue
+        adt = F.adts.get("pgcat::messages::" + msgn)
+        counts = {f["name"] for v in (adt or {}).get("variants", []) for f in v["fields"] if f["ty"] in ("i16", "u16", "i32", "u32") and f["name"] not in ("len",)}
+        puts = [c for c in b_.calls("re:BufMut>::put_i32$|BufMut::put_i32$")]
+        if not puts:
+            continue
+        n_enc += 1
+        first = min(puts, key=lambda c: c.block)
+        used = set()
+        for o in origins(b_, first.args[1], taint=True):
+            if o.kind in ("place", "param"):
+                used.update(p_[1:] for p_ in o.proj if p_.startswith(".") and p_[1:] in counts)
+        r7.check(not used, "length-from-bytes:" + msgn, "the %s encoder computes the length from what it writes" % msgn,
+                 "the %s encoder computes the frame length from the client-supplied count field(s) %s instead of from what it writes: a negative count (Parse with num_params = -1) gives a frame that is shorter than it says "
+                 "(in release builds; debug builds panic on the overflow), the server reads garbage after it and closes the connection, and pgcat bans the replica for it" % (msgn, sorted(used)), first.where())
+    r7.check(n_enc >= 3, "encoders", "%d message encoders reachable from the client path examined" % n_enc, "expected >= 3 reachable encoders, found %d" % n_enc)
+
     # ---------------- inventory (informational)
     inv = ctx.rule("C11-INV", "inventory of panic-capable operations on data read from the client in the protocol entry functions (a panic here only ends the sender's task)", armed=False)
     tot = 0
